@@ -647,6 +647,13 @@ static void pct_eval(uint64_t idx, void *ctx) {
     if (idx == 147860) v_sample("pct %" PRIu64 ": %s of \"%s\" appended at len %zu (%s capacity)", idx, ENC_NAME[enc], v_show(in, n), STARTS[startsel], roomy ? "roomy" : "tight");
     pct_check(in, n, (int)enc, STARTS[startsel], (int)roomy);
 }
+/* the same with an allocator that has no realloc of its own: the growth of the output buffer goes through the library's
+ * acquire + copy + release emulation */
+static void pct_min_eval(uint64_t idx, void *ctx) {
+    A = bee_min_allocator();
+    pct_eval(idx, ctx);
+    A = aws_default_allocator();
+}
 /* thorough only: every three-byte string, both encoders, appended at len 1 into a tight buffer */
 static uint64_t pct3_total(void) { return v_thorough() ? 2ull << 24 : 0; }
 static void pct3_eval(uint64_t idx, void *ctx) {
@@ -804,6 +811,7 @@ int main(int argc, char **argv) {
     bee_register("parse", parse_total, parse_eval, 10);
     bee_register("build", build_total, build_eval, 10);
     bee_register("pct", pct_total, pct_eval, 10);
+    bee_register("pct-minalloc", pct_total, pct_min_eval, 10);
     bee_register("pct3all", pct3_total, pct3_eval, 10);
     bee_register("dec", dec_total, dec_eval, 10);
     bee_register("dechex", dechex_total, dechex_eval, 10);
